@@ -637,6 +637,119 @@ def rule_r10(F):
     return r
 
 
+FIRST_LIKE = ("first", "split_first", "next", "first_mut")
+LAST_LIKE = ("last", "split_last", "next_back", "pop", "last_mut")
+
+
+def _imports_family(F):
+    """The fixpoint over the imports of one scope: TypeChecker::imports, its closures, and the crate helpers they call (other than the
+    single-import step and the error constructors)."""
+    root = [p for p in F.paths() if p.endswith("TypeChecker::imports")]
+    if not root:
+        return None, []
+    fam = [p for p in F.paths() if p == root[0] or p.startswith(root[0] + "::{closure")]
+    work = list(fam)
+    while work:
+        b = F.body(work.pop())
+        if b is None or not b.mir:
+            continue
+        for _, t in mir.calls(b):
+            c = mir.callee(t) or ""
+            if F.body(c) is not None and c not in fam and "typechecker" in c and not hir.last(c).startswith("error_") and hir.last(c) not in ("import", "resolve_module_part_of_path", "resolve_name", "insert_import"):
+                fam.append(c)
+                work.append(c)
+                fam.extend(p for p in F.paths() if p.startswith(c + "::{closure"))
+                work.extend(p for p in F.paths() if p.startswith(c + "::{closure"))
+    return root[0], fam
+
+
+def rule_r11(F):
+    """Imports may be written in any order: the first segment of an import is looked up among the imports of its own scope before the
+    enclosing scopes, so an import cannot be resolved while the scope still has an unresolved import that will bind that name - otherwise
+    `{ import m.f; import b.m; }` takes `m` from further out and `{ import b.m; import m.f; }` does not.  Whatever the algorithm
+    (deferral, dependency order), it has to relate the FIRST segment of one import to the LAST segment of the others, and every
+    single-import step of the fixpoint has to be conditional on that relation."""
+    r = RuleResult("C13.R11", "an import is only attempted when no unresolved import of the same scope binds the name of its first segment (imports work in any order)", floor=2)
+    root, fam = _imports_family(F)
+    if root is None:
+        r.missing("TypeChecker::imports")
+        return r
+    relating = set()          # family bodies that compare a first-like with a last-like identifier
+    for p in fam:
+        b = F.body(p)
+        if b is None or not b.mir:
+            continue
+        defs = mir.Defs(b)
+        for bi, t in mir.calls(b):
+            c = hir.last(mir.callee_def(t) or mir.callee(t) or "")
+            if c not in ("eq", "ne", "contains", "contains_key", "get") or len(t["args"]) < 2:
+                continue
+            kinds = []
+            for a in t["args"][:2]:
+                ks = set()
+                if mir.is_place_op(a):
+                    for cb in mir.back_calls(b, defs, a[1][0]):
+                        n = hir.last(mir.callee_def(b.blocks[cb]["term"]) or "")
+                        if n in FIRST_LIKE:
+                            ks.add("first")
+                        if n in LAST_LIKE:
+                            ks.add("last")
+                kinds.append(ks)
+            if ("first" in kinds[0] and "last" in kinds[1]) or ("last" in kinds[0] and "first" in kinds[1]):
+                relating.add(p)
+                r.inst("first/last relation in %s" % p, {"fn": p, "line": t.get("line")})
+    # close over callers inside the family: a body that calls a relating body is relating too
+    changed = True
+    while changed:
+        changed = False
+        for p in fam:
+            b = F.body(p)
+            if p in relating or b is None or not b.mir:
+                continue
+            uses = {mir.callee(t) or "" for _, t in mir.calls(b)}
+            uses |= {st["rv"].get("def") for blk in b.blocks for st in blk["stmts"] if st["k"] == "assign" and st["rv"]["k"] == "agg" and st["rv"].get("ak") == "closure"}
+            if uses & relating:
+                relating.add(p)
+                changed = True
+    if not relating:
+        r.bad(root, "imports not related to each other", relfile(F.body(root).file), F.body(root).line,
+              "nothing in the import fixpoint compares the first segment of an import with the names the other unresolved imports of the scope are going to bind: an import whose first "
+              "segment is also visible further out is resolved to that outer item when it happens to be written before the import that binds the name in its own scope")
+        return r
+    steps = 0
+    for p in fam:
+        b = F.body(p)
+        if b is None or not b.mir:
+            continue
+        defs = mir.Defs(b)
+        dom = mir.dominators(b)
+        for cb, t in mir.calls(b):
+            if hir.last(mir.callee(t) or "") != "import" or "TypeChecker" not in (mir.callee(t) or ""):
+                continue
+            steps += 1
+            guarded = False
+            for sb in dom[cb]:
+                st = b.blocks[sb]["term"]
+                if st["k"] != "switch" or sb == cb or not mir.is_place_op(st["o"]):
+                    continue
+                succ = list(mir.succs(b.blocks[sb]))
+                reach = [x for x in succ if cb == x or cb in mir.reachable_from(b, x, stop={sb})]
+                if len(reach) == len(succ):
+                    continue
+                feeders = mir.back_calls(b, defs, st["o"][1][0])
+                if any((mir.callee(b.blocks[f]["term"]) or "") in relating for f in feeders):
+                    guarded = True
+                    break
+            r.inst("single-import step in %s" % p, {"fn": p, "line": t.get("line"), "conditional_on_the_relation": guarded})
+            if not guarded:
+                r.bad(p, "import attempted regardless of the other unresolved imports", relfile(b.file), t.get("line"),
+                      "this step resolves one import without asking whether another unresolved import of the scope binds its first segment: the result depends on the order in which the "
+                      "imports are written (`{ import m.f; import b.m; f() }` vs `{ import b.m; import m.f; f() }` with another `m` visible further out)")
+    if steps == 0:
+        r.missing("a call of TypeChecker::import in the imports fixpoint")
+    return r
+
+
 def rules(ctx):
     F = ctx["F"]
-    return [rule_r1(F), rule_r2(F), rule_r3(F), rule_r4(F), rule_r5(F), rule_r6(F), rule_r7(F), rule_r8(F), rule_r9(F), rule_r10(F)]
+    return [rule_r1(F), rule_r2(F), rule_r3(F), rule_r4(F), rule_r5(F), rule_r6(F), rule_r7(F), rule_r8(F), rule_r9(F), rule_r10(F), rule_r11(F)]
